@@ -260,6 +260,51 @@ func runC14(c *Ctx) {
 			}
 		}
 	}
+	// the property's rank read literally ("by width"): the platform-sized int/uint rank by their 64-bit width.
+	// The code ranks them first in their group; every disagreement is the one listed finding.
+	{
+		var wl []string
+		var wc []cs
+		for _, o := range c14ops {
+			for _, ka := range kindOrder {
+				for _, kb := range kindOrder {
+					if ka != "int" && ka != "uint" && kb != "int" && kb != "uint" {
+						continue
+					}
+					ga, gb := grids[ka], grids[kb]
+					for i := 0; i < 12; i++ {
+						a, b := ga[(i*5+2)%len(ga)], gb[(i*3+1)%len(gb)]
+						wc = append(wc, cs{o.op, o.helper, o.not, a, b, "a " + o.op + " b"})
+						wl = append(wl, T("arithw", A(o.helper), valSx(a), valSx(b)).String())
+					}
+				}
+			}
+		}
+		wresp, err := c.AskAll(wl)
+		if err != nil {
+			r.Mismatch("driver", "arithw", err.Error(), "")
+			return
+		}
+		for i, k := range wc {
+			v, err := expr.Eval(k.src, map[string]interface{}{"a": k.a, "b": k.b})
+			impl := implOutcome(v, err)
+			model := wresp[i]
+			if k.not && strings.HasPrefix(model, "(ok (b ") {
+				if model == "(ok (b true))" {
+					model = "(ok (b false))"
+				} else {
+					model = "(ok (b true))"
+				}
+			}
+			r.Count("by-width-compared", 1)
+			if impl != model && !(isNaNResp(impl) && isNaNResp(model)) {
+				r.Violate(Violation{What: "result differs from the promotion rule with kinds ranked by width (int/uint are 64 bits wide)",
+					Key:    "c14:platform-int-ranked-below-narrow-kinds",
+					Input:  map[string]string{"expr": k.src, "a": valSx(k.a).String(), "b": valSx(k.b).String()},
+					Expect: model, Got: impl})
+			}
+		}
+	}
 	// unary minus on every kind, and ** result kind
 	var ulines []string
 	var uvals []interface{}
